@@ -69,6 +69,10 @@ func main() {
 			os.Exit(3)
 		}
 		parts := strings.SplitN(*dump, ":", 2)
+		if parts[0] == "div" {
+			debugDiv(l)
+			os.Exit(0)
+		}
 		if parts[0] == "constidx" {
 			debugConstIdx(l)
 			os.Exit(0)
